@@ -57,6 +57,27 @@ def component(D, sig, batched, F=2):
     return None, f"component D={D} sig={sig} batched={batched}"
 
 
+def component_slice(D, batched, a, b, F=2):
+    """slice of components: output channel j*F + f is component a+j at future step f of the same batch entry"""
+    sig = [(0, 0), (1, 0)] if D > 1 else [(0, 0), (0, 1)]
+    cn = {sig[0]: 2, sig[1]: 1}
+    shape = [(4,), (2, 3), (2, 3, 2)][D - 1]
+    lead = [3] if batched else []
+    X = {k: block(k, lead, cn[k] * F, shape, D, 100.0 * (i + 1)) for i, k in enumerate(sig)}
+    mi = make_mi(X, sig, D)
+    comps = [(k, c, u) for k in sig for c in range(cn[k]) for u in itertools.product(range(D), repeat=k[0])]
+    got = np.array((mi.batch_get_component(slice(a, b), F) if batched else mi.get_component(slice(a, b), F))[(0, 0)])
+    rows = []
+    for (k, c, u) in comps[a:b]:
+        src = X[k].reshape(tuple(lead) + (cn[k], F) + X[k].shape[len(lead) + 1:])
+        rows.append(src[(slice(None),) * len(lead) + (c,) + (slice(None),) * (1 + D) + u])      # lead + (F,) + spatial
+    exp = np.concatenate(rows, axis=len(lead))
+    call = f"component slice({a},{b}) D={D} batched={batched}"
+    if got.shape != exp.shape or not np.array_equal(got, exp.astype(np.float32)):
+        return "the selected components are not, per batch entry, the single-image selection", call
+    return None, call
+
+
 def avgpool_sc(D, nlead):
     shape = [(4,), (4, 6), (2, 4, 2)][D - 1]
     types = [(1, 0), (0, 0)] if D > 1 else [(0, 0)]
@@ -121,6 +142,8 @@ def run_req(req):
         return norm_sc(req["D"], req["nlead"], keys(req["sig"]))
     if sc == "component":
         return component(req["D"], keys(req["sig"]), req["batched"])
+    if sc == "component_slice":
+        return component_slice(req["D"], req["batched"], req["a"], req["b"])
     if sc == "avgpool":
         return avgpool_sc(req["D"], req["nlead"])
     if sc == "vmap":
@@ -154,6 +177,9 @@ def standin(req):
         for sig in ([[(0, 0), (1, 0)], [(1, 1), (0, 0), (2, 0)]] if D > 1 else [[(0, 1), (0, 0)]]):
             for b in [False, True]:
                 reqs.append(dict(scenario="component", D=D, sig=sig, batched=b))
+        for b in [False, True]:
+            for (a_, b_) in [(1, 3), (0, 2 + D), (1, 2)]:
+                reqs.append(dict(scenario="component_slice", D=D, batched=b, a=a_, b=b_))
     for r in reqs:
         d, call = run_req(r)
         n += 1
